@@ -135,6 +135,15 @@ def parseCase (ws : List String) : Option State :=
     else if w == "codec=bytes" then some { st with sel := .bytes }
     else if w == "codec=len" then some { st with sel := .len }
     else if w.startsWith "codec=" then none
+    -- how the `Framed` is made: `Framed::new` (buffers with capacity HW), from `FramedParts::new`
+    -- (no capacity), from `FramedParts::with_read_buf` (bytes handed over, flags empty)
+    else if w == "init=new" then some st
+    else if w == "init=parts" then some { st with rs := { st.rs with room := 0 } }
+    else if w.startsWith "init=rbuf:" then
+      match parseHex (w.drop 10).toString with
+      | some bs => if bs.length ≤ maxChunk then some { st with rs := { st.rs with buf := bs, room := 0 } } else none
+      | none => none
+    else if w.startsWith "init=" then none
     else some st) init
 
 def step (st : State) (line : String) : State × String :=
